@@ -29,6 +29,7 @@ def judge_sweep(ctx, line, st0, A, after, what):
 
 
 def run(ctx):
+    gen.INTEGRAL[0] = True          # real-typed weights are integer-valued here: how fractional weights are rounded is C08's subject
     ctx.trusted = ['Coq 8.16.1 kernel; axioms: the standard library\'s real-number axioms (ClassicalDedekindReals.sig_forall_dec, sig_not_dec, functional_extensionality_dep, Classical_Prop.classic) as printed below',
                    'correspondence K-UPD-U / K-UPD-V / K-UPD-W / K-ORDER: update_vertices (out- and in-edges), update_affinity called individually and the composed Solver::loop, on installed states aimed at every guard (zeros, values around 1e-6, zero columns, zero layers), all four code paths, vs the extracted float model, bit for bit; K-GRAPH for the adjacency the sums run over',
                    'not verified: binary64 rounding -- the theorem is about exact reals; the oracle compares the implementation with the dense reference equations in python floats within the property\'s 1e-10 relative tolerance']
